@@ -373,12 +373,14 @@ ENGINES.append(dict(name='fuzz', path='engines/seq (built with -DVERIF_FUZZ)', s
 # ---- real-thread sub-checks for C02 / C03 / C05 (TSan happens-before oracle + outcome oracles) ---------------
 harness('rt_tsan_general', 'engines/rthreads/rthreads.cpp', 'gcc-tsan-general')
 harness('rt_asan_c11', 'engines/rthreads/rthreads.cpp', 'gcc-asan')
+harness('rt_asan_general', 'engines/rthreads/rthreads.cpp', 'gcc-asan-general')
 def _rt2(kinds, cfgs, q, t):
     return [Sub('rt_' + c, 'rt_' + c, shards=(1, 2), cases=(q, t), maxsize=(100, 100), kind='stress', env={'VERIF_KINDS': kinds, 'VERIF_CONFIG_TSAN': 1 if 'tsan' in c or 'asan' in c else 0}, timeout=(900, 3600)) for c in cfgs]
 PROPS['C02'].subs += _rt2('rwrec', ['tsan_c11', 'tsan_general', 'plain_c11'], 25, 150)
+PROPS['C02'].subs += [Sub('rt_many_' + c, 'rt_' + c, shards=(1, 1), cases=(60, 400), maxsize=(100, 100), kind='stress', env={'VERIF_KINDS': 'rwmany', 'VERIF_CONFIG_TSAN': 0}, timeout=(900, 3600)) for c in ('asan_c11', 'asan_general')]
 PROPS['C03'].subs += _rt2('bbuf', ['tsan_c11', 'plain_c11'], 12, 200)
 PROPS['C05'].subs += _rt2('thr', ['tsan_c11', 'asan_c11', 'plain_c11'], 20, 150)
-PROPS['C02'].rule += ' Real-thread sub-checks: generated (threads, rounds, noise) reader/writer programs on real threads under ThreadSanitizer for the native and the general implementation, plus a plain -O2 run: record race or lost update = violation.'
+PROPS['C02'].rule += ' Many-holds sub-check (native and general model, ASan): 1 .. 16385 simultaneous read holds (powers of two and neighbours; lock and trylock alternating): a writer trylock is refused while any hold is outstanding and admitted when all are released. Real-thread sub-checks: generated (threads, rounds, noise) reader/writer programs on real threads under ThreadSanitizer for the native and the general implementation, plus a plain -O2 run: record race or lost update = violation.'
 PROPS['C03'].rule += ' Real-thread sub-checks: generated bounded-buffer programs (capacity 1-3, signal/broadcast by seed) on real threads under ThreadSanitizer and plain -O2: items conserved, no race report.'
 PROPS['C05'].rule += ' Real-thread sub-checks: rounds of create/ref/unref/join with exit codes, plain result stores read after join and TLS set/replace with a counting notifier, under ThreadSanitizer, ASan and plain -O2.'
 for _e in ENGINES:
